@@ -130,7 +130,9 @@ func (c *caseRun) txn(ops []storex.TxnOpArg, kind string) string {
 	before := h.Last
 	calls, events, dataEvents := c.pub.Calls, c.pub.Events, c.pub.DataEvents
 	ws := h.W.C05WatchSet([]string{missingKey})
+	fullBefore := takeFull(h.W.Store())
 	res := h.Step(op)
+	fullAfter := takeFull(h.W.Store())
 	after := h.Last
 	rp := replayOf(h)
 	aborted := strings.HasPrefix(res, "errs:")
@@ -143,6 +145,9 @@ func (c *caseRun) txn(ops []storex.TxnOpArg, kind string) string {
 		}
 		if d0, d1 := before.Dump(), after.Dump(); d0 != d1 {
 			c.run.Violate("txn:aborted-transaction-changed-state", fmt.Sprintf("transaction answered %s but the dump changed\nbefore: %s\nafter:  %s", res, d0, d1), rp)
+		}
+		if d := firstDiff(fullBefore, fullAfter); d != "" {
+			c.run.Violate("txn:aborted-transaction-changed-table:"+tableOfDiff(d), "a transaction that failed changed the store (deep dump of every table): "+d, rp)
 		}
 		if c.pub.Calls != calls || c.pub.Events != events {
 			c.run.Violate("txn:aborted-transaction-published-events", fmt.Sprintf("aborted transaction: %d Publish calls, %d events", c.pub.Calls-calls, c.pub.Events-events), rp)
@@ -171,6 +176,9 @@ func (c *caseRun) txn(ops []storex.TxnOpArg, kind string) string {
 		}
 		if c.pub.DataEvents > dataEvents && (c.pub.LastMin != idx || c.pub.LastMax != idx) {
 			c.run.Violate("txn:event-index", fmt.Sprintf("events of the transaction at index %d carry indexes %d..%d", idx, c.pub.LastMin, c.pub.LastMax), rp)
+		}
+		if d := mutatedInPlace(fullBefore, fullAfter); d != "" {
+			c.run.Violate("txn:committed-object-mutated-in-place:"+tableOfDiff(d), d, rp)
 		}
 		if d := storex.C05ChangedRowsCarry(before, after, idx); d != "" {
 			c.run.Violate("txn:changed-row-without-txn-index:"+strings.SplitN(d, " ", 2)[0], d, rp)
@@ -224,7 +232,11 @@ func (c *caseRun) readOnly(ops []storex.TxnOpArg, malformed bool) {
 	before := h.Last.Dump()
 	calls := c.pub.Calls
 	ws := h.W.C05WatchSet([]string{missingKey})
+	fullBefore := takeFull(h.W.Store())
 	line, out := h.W.ROLine(ops)
+	if d := firstDiff(fullBefore, takeFull(h.W.Store())); d != "" {
+		c.run.Violate("txn:read-only-transaction-changed-table:"+tableOfDiff(d), d, replayOf(h))
+	}
 	c.run.Line(line, out)
 	after := h.W.Observe(storex.Keys)
 	c.run.Line("dump", after.Dump())
@@ -339,6 +351,10 @@ func main() {
 	n := run.Scale(600, 5000)
 	for i := 0; i < n; i++ {
 		oneCase(run, i)
+	}
+	// monitor-only cases over the tables outside the Lean model (see shadow.go)
+	for i := 0; i < run.Scale(300, 2500); i++ {
+		shadowCase(run, i)
 	}
 	run.Finish()
 }
